@@ -449,6 +449,7 @@ package sql
 
 // ---- the copied text/scanner (sql/go_scanner.go) ----
 // Trusted: next (one rune from the reader through the source buffer), error/errorf (reporting), TokenText, isIdentRune.
+// The scanner's private token buffer (tokBuf, written by next and TokenText) is outside the model: no contract reads it.
 // Verified on top of them: every scanning function is free of run-time panics and terminates, and a call of Scan
 // that returns a token has consumed input. srem(s) is the number of runes of the source that next has not yet
 // returned; it is what makes "the source is finite" expressible (an io.Reader that returns (0, nil) for ever is
@@ -466,7 +467,7 @@ package sql
 //@ func (s *Scanner) next() rune
 //@   trusted
 //@   requires scOK(s)
-//@   modifies s.srcPos, s.srcEnd, s.srcBufOffset, s.line, s.column, s.lastLineLen, s.lastCharLen, s.tokPos, s.tokEnd, s.ErrorCount, srem(s)
+//@   modifies s.srcBuf, s.srcPos, s.srcEnd, s.srcBufOffset, s.line, s.column, s.lastLineLen, s.lastCharLen, s.tokPos, s.tokEnd, s.ErrorCount, srem(s)
 //@   ensures srem(s) >= 0 && result >= -1 && result <= 1114111
 //@   ensures result >= 0 ==> srem(s) < old(srem(s))
 //@   ensures result < 0 ==> srem(s) == old(srem(s))
@@ -481,6 +482,8 @@ package sql
 //@   requires s != nil
 //@   modifies s.tokEnd, s.ErrorCount
 
+// isIdentRune: for the default identifier predicate (mkdb never sets Scanner.IsIdentRune): '_', letters, digits after the first
+// position - never a negative rune (unicode.IsLetter/IsDigit are false outside the Unicode range).
 //@ func (s *Scanner) isIdentRune(ch rune, i int) bool
 //@   trusted
 //@   modifies nothing
